@@ -143,7 +143,7 @@ def ip_template(rng, tid, nfields=None, lossless=False, varlen=True, enterprise=
             continue
         r = rng.random()
         if enterprise and r < 0.12:
-            fields.append({"typ": rng.randrange(1, 32768), "len": rng.choice([1, 2, 4, 8, 65535 if varlen else 4]), "ent": rng.choice([1, 9, 29305, 2 ** 32 - 1])})
+            fields.append({"typ": rng.choice([0, 1, 32767, rng.randrange(0, 32768)]), "len": rng.choice([1, 2, 4, 8, 65535 if varlen else 4]), "ent": rng.choice([0, 1, 9, 29305, 2 ** 32 - 1])})
         elif varlen and r < 0.25:
             n = rng.choice(IP_BY_TY.get("str", []) + IP_BY_TY.get("vec", []) + IP_BY_TY.get("unknown", [])[:3])
             fields.append({"typ": n, "len": 65535, "ent": None})
@@ -212,6 +212,10 @@ class Exporter:
         self.simple_ipfix = simple_ipfix      # one template record per set, no varlen-tail shapes
 
     def new_id(self):
+        if self.wild and self.rng.random() < 0.25:
+            # ids at the reserved / data boundary (non-conformant for a template id: the spec oracle is switched off)
+            self.dirty = True
+            return self.rng.choice([255, 255, 254, 253, 4, 2, 1, 0])
         return self.rng.choice([256, 257, 258, 300, 1000, 65535])
 
     def v9_msg(self, nsets=None, allow_opts=True):
@@ -251,8 +255,21 @@ class Exporter:
                     sets.append({"data": {"id": tid, "recs": recs, "pad": hx(bytes(rng.choice([0, 0, 1, 2, 3])))}})
         return {"v9": {"m": {"count": len(sets), "sysUpTime": rnat(rng, 4), "unixSecs": rnat(rng, 4), "seq": rnat(rng, 4), "sourceId": rnat(rng, 4), "sets": sets}}}
 
+    def ip_raw_reserved_set(self):
+        """an IPFIX message (raw bytes) whose single set uses a reserved / boundary set id with a template-shaped body"""
+        rng = self.rng
+        sid = rng.choice([0, 1, 4, 5, 100, 254, 255, 255])
+        tid = rng.choice([256, 300, 255, 254])
+        nf = rng.randrange(1, 4)
+        body = tid.to_bytes(2, "big") + nf.to_bytes(2, "big") + b"".join(rng.choice([1, 2, 8, 12]).to_bytes(2, "big") + rng.choice([1, 2, 4]).to_bytes(2, "big") for _ in range(nf))
+        st = sid.to_bytes(2, "big") + (len(body) + 4).to_bytes(2, "big") + body
+        self.dirty = True
+        return {"raw": {"b": hx((10).to_bytes(2, "big") + (16 + len(st)).to_bytes(2, "big") + bytes(12) + st)}}
+
     def ip_msg(self, nsets=None):
         rng = self.rng
+        if self.wild and rng.random() < 0.15:
+            return self.ip_raw_reserved_set()
         sets = []
         k = nsets if nsets is not None else rng.randrange(1, 5)
         for _ in range(k):
@@ -269,6 +286,9 @@ class Exporter:
                 for _ in range(nt):
                     t = ip_template(rng, self.new_id(), lossless=self.lossless, varlen=not self.lossless, enterprise=not self.lossless)
                     t["scopeCount"] = rng.randrange(1, len(t["fields"]) + 1)
+                    if self.wild and rng.random() < 0.2:
+                        t["scopeCount"] = len(t["fields"]) + rng.choice([1, 2, 60000])     # scope count above field count
+                        self.dirty = True
                     ts.append(t)
                     self.ip[t["id"]] = ("o", t)
                 sets.append({"optTemplates": {"ts": ts, "pad": ""}})
@@ -549,7 +569,7 @@ def fam_unknown_template(rng, n):
         ex = Exporter(rng, simple_ipfix=True, lossless=True)
         other = Exporter(rng, simple_ipfix=True, lossless=True)
         proto = rng.choice([9, 10])
-        tid = rng.choice([256, 300, 999])
+        tid = rng.choice([256, 300, 999, 255, 255, 65535] + ([2, 100, 254] if proto == 9 else []))
         ops = [op_new(0), op_new(1)]
         # the id is defined in the OTHER protocol on p0 and in the same protocol on p1
         if proto == 9:
@@ -600,6 +620,46 @@ def fam_unknown_template(rng, n):
         ops.append(op_parse(0, msgs=[tmsg], want=[]))
         ops.append(op_parse(0, msgs=[data], want=[]))
         out.append(("unknown-template", ops))
+    return out
+
+
+def fam_widths(rng, proto, sample=None):
+    """every library type crossed with every declared width 0..20 (and IPFIX variable length): supported widths
+    carry the abstract messages (spec oracle), unsupported ones are raw behaviour compared with the model only"""
+    out = []
+    by_ty = V9_BY_TY if proto == 9 else IP_BY_TY
+    combos = [(ty, w) for ty in sorted(by_ty) for w in list(range(0, 21)) + ([65535] if proto == 10 else [])]
+    if sample is not None and sample < len(combos):
+        combos = rng.sample(combos, sample)
+    for ty, w in combos:
+        n = by_ty[ty][0]
+        supported = w in WIDTHS.get(ty, []) or ty in ("str", "vec", "unknown")
+        nrec = 2
+        if proto == 9:
+            if w == 0 and ty not in ("str", "vec", "unknown"):
+                supported = False
+            t = {"id": 256, "fieldCount": 2, "fields": [{"typ": n, "len": w}, {"typ": 1, "len": 4}]}
+            recs = [[hx(value_for(rng, ty, w)), hx(rbytes(rng, 4))] for _ in range(nrec)]
+            tm = {"v9": {"m": {"count": 1, "sysUpTime": 1, "unixSecs": 1, "seq": 1, "sourceId": 1, "sets": [{"templates": {"ts": [t], "pad": ""}}]}}}
+            dm = {"v9": {"m": {"count": 1, "sysUpTime": 2, "unixSecs": 2, "seq": 2, "sourceId": 1, "sets": [{"data": {"id": 256, "recs": recs, "pad": ""}}]}}}
+        else:
+            t = {"id": 256, "fields": [{"typ": n, "len": w, "ent": None}, {"typ": 1, "len": 4, "ent": None}]}
+            recs = []
+            for _ in range(nrec):
+                if w == 65535:
+                    k = rng.randrange(0, 9)
+                    recs.append([{"content": hx(value_for(rng, ty, k)), "form": rng.choice(["short", "long"])}, {"content": hx(rbytes(rng, 4)), "form": "fixed"}])
+                else:
+                    recs.append([{"content": hx(value_for(rng, ty, w)), "form": "fixed"}, {"content": hx(rbytes(rng, 4)), "form": "fixed"}])
+            if w == 65535:
+                supported = ty in ("str", "vec", "unknown")
+            tm = {"ipfix": {"m": {"exportTime": 1, "seq": 1, "odid": 1, "sets": [{"templates": {"ts": [t], "pad": ""}}]}}}
+            dm = {"ipfix": {"m": {"exportTime": 2, "seq": 2, "odid": 1, "sets": [{"data": {"id": 256, "recs": recs, "pad": ""}}]}}}
+        o1, o2 = op_parse(0, msgs=[tm]), op_parse(0, msgs=[dm])
+        if not supported:
+            o1["nospec"] = True
+            o2["nospec"] = True
+        out.append(("widths-%s" % ("ok" if supported else "unsupported"), [op_new(0), o1, o2]))
     return out
 
 
@@ -710,6 +770,13 @@ def fam_extremal(rng, tier):
         tm = {"v9": {"m": {"count": 1, "sysUpTime": 1, "unixSecs": 1, "seq": 1, "sourceId": 1, "sets": [{"templates": {"ts": [t], "pad": ""}}]}}}
         data = {"v9": {"m": {"count": 1, "sysUpTime": 2, "unixSecs": 2, "seq": 2, "sourceId": 1, "sets": [{"data": {"id": 256, "recs": [], "pad": "00000000"}}]}}}
         out.append(("extremal-v9-zero-size", [op_new(0), op_parse(0, msgs=[tm], want=[]), op_parse(0, msgs=[data], want=["export", "common", "json"])]))
+    # (c2) V9 template whose declared record size exceeds 65535 (many fields), then a data flowset
+    for nf, flen, body in ([(1986, 33, 20000)] if tier == "quick" else [(1986, 33, 20000), (4000, 17, 60000), (3, 32769, 40000)]):
+        fields = [{"typ": 94, "len": flen}] * nf
+        t = {"id": 256, "fieldCount": nf, "fields": fields}
+        tm = {"v9": {"m": {"count": 1, "sysUpTime": 1, "unixSecs": 1, "seq": 1, "sourceId": 1, "sets": [{"templates": {"ts": [t], "pad": ""}}]}}}
+        dm = {"raw": {"b": hx(b"\x00\x09\x00\x01" + bytes(16) + (256).to_bytes(2, "big") + (body + 4).to_bytes(2, "big") + bytes(body))}}
+        out.append(("extremal-v9-huge-record-%d" % nf, [op_new(0), op_parse(0, msgs=[tm], want=[]), op_parse(0, msgs=[dm], want=["export", "common"])]))
     # (d) headers announcing 65535 records / fields over short bodies
     for h in ["0005ffff" + "00" * 20, "0007ffff" + "00" * 20, "0009ffff" + "00" * 16, "000a0014" + "00" * 12 + "0002ffff", "000a0018" + "00" * 12 + "00020008" + "0100ffff",
               "0009000100000000000000000000000000000000" + "00000008" + "0100ffff", "000a001a" + "00" * 12 + "0003000a" + "0100ffffffff"]:
